@@ -304,19 +304,19 @@ func idlSmallTrees(budget int) []*gIdl {
 
 // gap classes (DESIGN.md Appendix B)
 const (
-	gapBeforeInterface = iota // G0
-	gapKeywordName            // G1 (non-empty)
-	gapAfterIfaceName         // G2 (non-empty)
-	gapBetweenMembers         // G3
-	gapNameType               // G4
-	gapArrow                  // G5
-	gapErrorType              // G6
-	gapAfterOpen              // G7
-	gapColon                  // G8
-	gapComma                  // G9
-	gapBeforeClose            // G10
-	gapEnd                    // G11
-	gapIfaceKeywordName       // G1 of the `interface` keyword (tagged separately)
+	gapBeforeInterface  = iota // G0
+	gapKeywordName             // G1 (non-empty)
+	gapAfterIfaceName          // G2 (non-empty)
+	gapBetweenMembers          // G3
+	gapNameType                // G4
+	gapArrow                   // G5
+	gapErrorType               // G6
+	gapAfterOpen               // G7
+	gapColon                   // G8
+	gapComma                   // G9
+	gapBeforeClose             // G10
+	gapEnd                     // G11
+	gapIfaceKeywordName        // G1 of the `interface` keyword (tagged separately)
 	numGapClasses
 )
 
